@@ -70,16 +70,49 @@ def f1_update_at_fragment_start(item, ops):
     return False
 
 
+# ---------------------------------------------------------------------------------------------- C10
+
+def mon_c10(ops, impl):
+    out = []
+    for i, (o, a) in enumerate(zip(ops, impl)):
+        w = o.split(" ")
+        if w[0] == "enc_new":
+            out.append((i, f"mon_enc_new {min(int(w[1]), 4096)}"))   # both ends start from the same table size
+        elif w[0] == "enc_max":
+            out.append((i, "mon_enc_max " + w[1]))
+        elif w[0] == "enc_block" and not a.startswith("err") and a != "panic":
+            out.append((i, f"mon_enc_block {w[1]} {a.split(' ')[0]}"))
+    return out
+
+
 def nontrivial(prop, op, ans):
     return ans not in ("ok", "bad-op", "")
 
 
 PROPS = {
+    "C10": {
+        "lean_targets": ["H2V.Props.C10"],
+        "theorems": [
+            ("H2V.Props.C10", "H2V.Props.C10.index_static_sound"),
+        ],
+        "profiles": [
+            {"name": "hpackenc", "quick": 700, "thorough": 8000, "shards": {"quick": 1, "thorough": 6}},
+        ],
+        "relations": {},
+        "monitor": mon_c10,
+        "history_starts": ("enc_new",),
+        "partial": "the concrete robin-hood index of hpack/table.rs is covered by the byte-exact differential only; the theorems are about the abstract (list) encoder",
+        "assumptions": ["hash index of hpack/table.rs abstracted to a list (byte-exact correspondence checked on every run)"],
+    },
     "C11": {
         "lean_targets": ["H2V.Props.C11"],
         "theorems": [
             ("H2V.Props.C11", "H2V.Props.C11.huffman_tables_are_rfc"),
             ("H2V.Props.C11", "H2V.Props.C11.static_table_is_rfc"),
+            ("H2V.Props.C11", "H2V.Props.C11.huffman_decode_is_canonical"),
+            ("H2V.Props.C11", "H2V.Props.C11.huffman_roundtrip"),
+            ("H2V.Props.C11", "H2V.Props.C11.huffman_encode_is_canonical"),
+            ("H2V.Props.C11", "H2V.Props.C11.huffman_leaf_progress"),
         ],
         "profiles": [
             {"name": "huffman", "quick": 1500, "thorough": 40000},
